@@ -5,6 +5,7 @@ package acl
 import (
 	"context"
 	"errors"
+	"github.com/nspcc-dev/neofs-sdk-go/user"
 
 	"github.com/nspcc-dev/neofs-node/internal/vrt"
 	"github.com/nspcc-dev/neofs-node/pkg/local_object_storage/engine"
@@ -63,6 +64,14 @@ func VerifC28ExtendedACL() {
 	var cnr container.Container
 	cnr.SetBasicACL(b)
 	info := v2.RequestInfo{RequestRole: role, Operation: op, Container: cnr, SenderKey: []byte{1}}
+	withAccount := vrt.Bool("senderAccountKnown")
+	var acc user.ID
+	acc[0], acc[1] = 0x35, 7
+	if withAccount {
+		info.SenderAccount = &acc
+	}
+	var gotKey, gotAcc []byte
+	eacl.VerifHookUnit = func(k, a []byte) { gotKey, gotAcc = k, a }
 	withBearer := vrt.Bool("bearerTokenPresent")
 	if withBearer {
 		var bt bearer.Token
@@ -114,6 +123,10 @@ func VerifC28ExtendedACL() {
 			return
 		}
 		vrt.Assert(c28.evaluated == 1 && !c28.usedBearer, "the stored table is the one evaluated")
+	}
+	vrt.Assert(len(gotKey) == 1 && gotKey[0] == 1, "the table is evaluated for the request's sender key")
+	if withAccount {
+		vrt.Assert(len(gotAcc) == len(acc) && gotAcc[1] == 7, "the table is evaluated for the request's sender account")
 	}
 	switch {
 	case c28.evalErr:
